@@ -16,7 +16,8 @@ ovars == <<l, obs, sc, viol>>
 IsHook(e) == SubSeq(e.ev, 1, 2) = "h:" /\ e.ev \notin {"h:backoff.next"}
 Cfg(e) == [ObsInit EXCEPT !.cfgErrors = IF "errors" \in DOMAIN e.args THEN e.args.errors ELSE FALSE,
                           !.cfgNoReconnect = IF "noreconnect" \in DOMAIN e.args THEN e.args.noreconnect ELSE FALSE,
-                          !.cfgHooks = IF "hooks" \in DOMAIN e THEN e.hooks ELSE FALSE]
+                          !.cfgHooks = IF "hooks" \in DOMAIN e THEN e.hooks ELSE FALSE,
+                          !.scName = IF "name" \in DOMAIN e THEN e.name ELSE ""]
 Tag(s, V) == {<<s, v[1], v[2], v[3]>> : v \in V}
 
 OInit == l = 1 /\ obs = ObsInit /\ sc = 0 /\ viol = {}
